@@ -12,7 +12,7 @@ import (
 
 // ---------- types ----------
 
-// c10Ty: K is one of i s b (scalars), l (list), t (set), m (record).
+// c10Ty: K is one of i s b (scalars), l (list), t (set), m (record), o (optional scalar: El or null).
 type c10Ty struct {
 	K  string
 	El *c10Ty     // element type of l / t
@@ -51,6 +51,8 @@ func (t *c10Ty) String() string {
 			ps[i] = f.Name + ":" + f.T.String()
 		}
 		return "rec{" + strings.Join(ps, ",") + "}"
+	case "o":
+		return "opt<" + t.El.String() + ">"
 	}
 	return "?"
 }
@@ -137,6 +139,8 @@ func c10RenderLit(v *c10Val) string {
 		return `"` + v.S + `"`
 	case "b":
 		return fmt.Sprint(v.B)
+	case "null":
+		return "null"
 	}
 	panic("c10RenderLit: " + v.K)
 }
@@ -643,6 +647,11 @@ func (in *c10Interp) bin(e *c10Ex, env *c10Env) *c10Val {
 		return c10Int(a.I % b.I)
 	case "==", "!=":
 		eq := false
+		switch {
+		case a.K == "null" || b.K == "null":
+			// null equals only null
+			return c10Bool((a.K == b.K) == (e.Sym == "=="))
+		}
 		switch a.K {
 		case "i":
 			eq = a.I == b.I
